@@ -3,7 +3,6 @@ module verif/sim
 go 1.26
 
 require (
-	github.com/anishathalye/porcupine v1.3.0
 	github.com/cilium/hive v1.0.4
 	github.com/cilium/statedb v0.0.0
 	go.yaml.in/yaml/v3 v3.0.4
